@@ -47,6 +47,8 @@ pub enum Res {
         call_clock: u64,
     },
     Retain(Vec<PredRec>),
+    /// a retain whose callback panicked: verdicts logged before the panic, panic message
+    RetainPanic(Vec<PredRec>, String),
     Items { items: Vec<Item>, done: bool },
     Len(usize),
     Panic(String),
@@ -69,6 +71,11 @@ pub struct GuardInterval {
     pub thread: u8,
     pub enter: u64,
     pub exit: u64,
+}
+
+thread_local! {
+    /// verdicts of the retain callbacks of the operation in flight (survives a panicking callback)
+    static CB_LOG: std::cell::RefCell<Vec<PredRec>> = const { std::cell::RefCell::new(Vec::new()) };
 }
 
 struct RefRec {
@@ -136,6 +143,8 @@ pub struct RunResult {
     pub teardown_panic: Option<String>,
     /// state of every key of the universe after pre-population: (k, Some((key instance, value id)))
     pub initial: Vec<(u32, Option<(u32, u32)>)>,
+    /// table length after pre-population (0 = not allocated)
+    pub initial_table_len: usize,
 }
 
 pub enum Tgt {
@@ -262,11 +271,14 @@ fn release_guard(ctx: &mut Ctx<'_>, why: &str) {
         recheck(ctx, why);
         ctx.refs.clear();
         let g = ctx.guard.take();
+        // the guard stops protecting at the instant its release begins; reclamation that the
+        // release triggers (and the seams inside Table::drop) comes after this stamp
+        let exit = sched::now();
         drop(g);
         ctx.intervals.push(GuardInterval {
             thread: ctx.thread,
             enter: ctx.guard_enter,
-            exit: sched::now(),
+            exit,
         });
     }
 }
@@ -288,11 +300,12 @@ fn with_guard<R>(ctx: &mut Ctx<'_>, f: impl FnOnce(&mut Ctx<'_>, &Guard<'_>) -> 
         let enter = sched::now();
         let g = ctx.sh.tgt.guard();
         let r = f(ctx, &g);
+        let exit = sched::now();
         drop(g);
         ctx.intervals.push(GuardInterval {
             thread: ctx.thread,
             enter,
-            exit: sched::now(),
+            exit,
         });
         r
     }
@@ -417,7 +430,7 @@ fn exec_op(ctx: &mut Ctx<'_>, op: &Op) -> Res {
             Res::Compute { calls, saw, saw_n, ret, ret_n, call_clock }
         }),
         (Tgt::Map(m), Op::Retain(p)) | (Tgt::Map(m), Op::RetainForce(p)) => with_guard(ctx, |ctx, g| {
-            let mut log = Vec::new();
+            CB_LOG.with(|l| l.borrow_mut().clear());
             let mut errs = Vec::new();
             let f = |kk: &Key, v: &Val| -> bool {
                 let (k, kinst) = match kk.read() {
@@ -436,7 +449,7 @@ fn exec_op(ctx: &mut Ctx<'_>, op: &Op) -> Res {
                 };
                 callback_tick(sh);
                 let keep = p.keep(k, vid);
-                log.push(PredRec { k, kinst, vid, keep, clock: sched::now() });
+                CB_LOG.with(|l| l.borrow_mut().push(PredRec { k, kinst, vid, keep, clock: sched::now() }));
                 keep
             };
             let force = matches!(op, Op::RetainForce(_));
@@ -449,7 +462,7 @@ fn exec_op(ctx: &mut Ctx<'_>, op: &Op) -> Res {
             for e in errs {
                 ctx.errors.push(format!("t{} {}", ctx.thread, e));
             }
-            Res::Retain(log)
+            Res::Retain(CB_LOG.with(|l| std::mem::take(&mut *l.borrow_mut())))
         }),
         (Tgt::Map(m), Op::Clear) => with_guard(ctx, |_, g| {
             if pinned { m.with_guard(g).clear() } else { m.clear(g) }
@@ -523,7 +536,7 @@ fn exec_op(ctx: &mut Ctx<'_>, op: &Op) -> Res {
             Res::KV(r.map(|a| (kread(ctx, unsafe { &*a }, "set.take").1, 0)))
         }),
         (Tgt::Set(s), Op::Retain(p)) | (Tgt::Set(s), Op::RetainForce(p)) => with_guard(ctx, |ctx, g| {
-            let mut log = Vec::new();
+            CB_LOG.with(|l| l.borrow_mut().clear());
             let mut errs = Vec::new();
             let f = |kk: &Key| -> bool {
                 let (k, kinst) = match kk.read() {
@@ -535,14 +548,14 @@ fn exec_op(ctx: &mut Ctx<'_>, op: &Op) -> Res {
                 };
                 callback_tick(sh);
                 let keep = p.keep(k, 0);
-                log.push(PredRec { k, kinst, vid: 0, keep, clock: sched::now() });
+                CB_LOG.with(|l| l.borrow_mut().push(PredRec { k, kinst, vid: 0, keep, clock: sched::now() }));
                 keep
             };
             if pinned { s.with_guard(g).retain(f) } else { s.retain(f, g) }
             for e in errs {
                 ctx.errors.push(format!("t{} {}", ctx.thread, e));
             }
-            Res::Retain(log)
+            Res::Retain(CB_LOG.with(|l| std::mem::take(&mut *l.borrow_mut())))
         }),
         (Tgt::Set(s), Op::Clear) => with_guard(ctx, |_, g| {
             if pinned { s.with_guard(g).clear() } else { s.clear(g) }
@@ -856,6 +869,10 @@ pub fn execute(p: &Program, mut setup: RunSetup, opts: &ExecOpts) -> RunResult {
             }
         }
     };
+    let initial_table_len = match &tgt {
+        Tgt::Map(m) => m.verif_table_len(),
+        Tgt::Set(s) => s.verif_map().verif_table_len(),
+    };
     let callbacks = AtomicU64::new(0);
     let shared = Shared {
         tgt: &tgt,
@@ -905,7 +922,13 @@ pub fn execute(p: &Program, mut setup: RunSetup, opts: &ExecOpts) -> RunResult {
                 let ret = sched::op_end();
                 let res = match r {
                     Ok(r) => r,
-                    Err(e) => Res::Panic(panic_msg(e)),
+                    Err(e) => {
+                        if matches!(op, Op::Retain(_) | Op::RetainForce(_)) {
+                            Res::RetainPanic(CB_LOG.with(|l| std::mem::take(&mut *l.borrow_mut())), panic_msg(e))
+                        } else {
+                            Res::Panic(panic_msg(e))
+                        }
+                    }
                 };
                 hist.push(OpRec { thread: ti as u8, idx: i as u16, op: op.clone(), inv, ret, res, new_kinst: ctx.new_kinst });
             }
@@ -952,6 +975,7 @@ pub fn execute(p: &Program, mut setup: RunSetup, opts: &ExecOpts) -> RunResult {
             end_clock,
             teardown_panic: None,
             initial,
+            initial_table_len,
         };
     }
 
@@ -986,5 +1010,6 @@ pub fn execute(p: &Program, mut setup: RunSetup, opts: &ExecOpts) -> RunResult {
         end_clock,
         teardown_panic,
         initial,
+        initial_table_len,
     }
 }
